@@ -25,6 +25,18 @@ Oracle (the statement executed on the IMPLEMENTATION, every public class and nes
      the caller's tiny arrays can be overwritten afterwards, deepcopy / pickle twins taken before and after the tiny
      batches continue identically, set_params(**get_params()) stays a no-op, an ordinary batch afterwards is learned
      exactly as by a reference that received private copies
+ (o) constructors reached through their optional paths with argument CONTAINERS the caller keeps and reuses:
+     SMART(base_ART_class, rho_values, base_params, **kwargs) with extra keyword arguments for the layers, FusionART /
+     FALCON / TD_FALCON gamma_values / channel_dims (lists or arrays, FALCON's default gamma_values), FusionART /
+     DeepARTMAP module lists; the same dict / list / array objects then build a second SMART / DeepARTMAP / FusionART /
+     FALCON / TD_FALCON (without the keyword or with another value).  The caller's containers equal the deep copies
+     taken before (after every construction, after training); the second instance is accepted / rejected like, reports
+     the hyper-parameters of, and trains identically to a control built from fresh equal containers, while the first
+     instance keeps training in between and equals its own control
+ (p) every host constructor (DualVigilanceART, TopoART, CVIART, SimpleARTMAP, ARTMAP, FusionART, DeepARTMAP, BARTMAP,
+     FALCON, TD_FALCON; every slot) around an ALREADY FITTED module of every elementary class: all instance attributes
+     of every module handed over are bit-identical after the construction (also when it raises) and after a read-only
+     get_params of the host, and the module continues (partial_fit of one more row) like a deepcopy taken before
 Tie: `params run` op sequences (get/set/attr/setattr, valid and malformed values) on the
 eight elementary classes against the Lean model; the Lean class table against the table
 re-extracted from the source (inspect.signature, default-instance get_params, AST of
@@ -46,9 +58,9 @@ from .. import gen, specs
 from ..common import q2s, mat_q, vec_q, run_driver
 from ..impl import make, quiet, exc_enum, full_snapshot, eq_snap, params_tree
 
-RULE = ("cases = (subject = public class or nesting, sub-check a..n, hyper-parameter spec(s), data stream, history of "
+RULE = ("cases = (subject = public class or nesting, sub-check a..p, hyper-parameter spec(s), data stream, history of "
         "fit/partial_fit/predict calls, copy point / interleaving / mutation / route by which values reach the estimator); a case is non-trivial when at least one "
-        "training call committed >= 2 categories (b, c, e, h, i, j, k, l, m, n); protocol-only cases (a, d, g) and tie lines with >= 2 commands count as non-trivial; "
+        "training call committed >= 2 categories (b, c, e, h, i, j, k, l, m, n, o, p); protocol-only cases (a, d, g) and tie lines with >= 2 commands count as non-trivial; "
         "distinct by hash of all of it")
 
 BETA_BASES = ["FuzzyART", "HypersphereART", "EllipsoidART", "ART2A"]
@@ -2166,13 +2178,490 @@ def chk_replace_and_nested(ctx):
 
 
 
+# ================================================================ (o) constructor argument containers shared between instances
+
+
+def picture(v, memo=None, ids=True):
+    """a by-value, type-carrying picture of an argument object: dicts / lists / tuples / arrays recursively, an artlib
+    object as its class, (identity) and ALL of its instance attributes — what `pic_diff` compares before / after"""
+    memo = {} if memo is None else memo
+    if isinstance(v, dict):
+        return {k: picture(x, memo, ids) for k, x in v.items()}
+    if isinstance(v, list):
+        return [picture(x, memo, ids) for x in v]
+    if isinstance(v, tuple):
+        return tuple(picture(x, memo, ids) for x in v)
+    if isinstance(v, np.ndarray):
+        return v.copy()
+    if _is_artlib_object(v):
+        if id(v) in memo:
+            return "<seen above>"
+        memo[id(v)] = True
+        out = {"<class>": type(v).__name__}
+        if ids:
+            out["<object>"] = id(v)
+        out.update((k, picture(x, memo, ids)) for k, x in vars(v).items())
+        return out
+    return v
+
+
+def pic_diff(a, b, p=""):
+    """paths at which two pictures differ (types included: a list that became an array, a float that became an int)"""
+    if type(a) is not type(b):
+        return [p or "/"]
+    if isinstance(a, dict):
+        out = []
+        for k in sorted(set(a) | set(b), key=str):
+            out += [f"{p}/{k}"] if (k not in a or k not in b) else pic_diff(a[k], b[k], f"{p}/{k}")
+        return out
+    if isinstance(a, (list, tuple)):
+        if len(a) != len(b):
+            return [p or "/"]
+        return [q for i, (x, y) in enumerate(zip(a, b)) for q in pic_diff(x, y, f"{p}[{i}]")]
+    if isinstance(a, np.ndarray):
+        same = a.dtype == b.dtype and a.shape == b.shape and (
+            np.array_equal(a, b, equal_nan=True) if a.dtype.kind in "fc" else np.array_equal(a, b))
+        return [] if same else [p or "/"]
+    try:
+        same = bool(a == b) or bool(a != a and b != b)
+    except Exception:  # noqa
+        same = a is b
+    return [] if same else [p or "/"]
+
+
+def _top(path: str) -> str:
+    """first component of a pic_diff path: the container / attribute that moved"""
+    return path.lstrip("/").split("/")[0].split("[")[0] or "/"
+
+
+SHARED_BASES = ["FuzzyART", "FuzzyART", "GaussianART", "GaussianART", "HypersphereART", "ART2A", "EllipsoidART", "QuadraticNeuronART"]
+
+
+def _elem_kwargs(e: dict) -> dict:
+    """constructor keywords of an elementary spec, without the vigilance (array-valued ones as arrays)"""
+    return {k: (np.array(v, dtype=float) if k in ("sigma_init", "cov_init") else v)
+            for k, v in e.items() if k not in ("cls", "rho", "_d")}
+
+
+def _ctor_defaults(C) -> dict:
+    return {n: p.default for n, p in inspect.signature(C.__init__).parameters.items()
+            if p.default is not inspect.Parameter.empty}
+
+
+def _as_container(r: random.Random, values: list, as_int=False):
+    """the same numbers as a list or (what the signatures also allow) an ndarray"""
+    if r.random() < 0.3:
+        return np.array(values, dtype=int if as_int else float)
+    return list(values)
+
+
+class SharedCase:
+    """one situation of sub-check (o): `C` = the caller's containers (name -> dict / list / ndarray / list of modules),
+    `first(C)` builds the first instance through the optional path, `second(C)` the second one from the SAME containers,
+    `S1` / `S2` + `spec1` / `spec2` generate their data and drive them"""
+
+    def __init__(self):
+        self.C, self.info = {}, {}
+        self.first = self.second = None
+        self.S1 = self.S2 = None
+        self.spec1 = self.spec2 = None
+        self.cls1 = self.cls2 = "?"
+        self.expect_first = self.expect_second = None      # SMART: per layer, what the constructor was told
+
+
+def _consumer(kind: str, base: str, k: int, d: int):
+    """(subject that drives an estimator of `kind` made of k modules of class `base`, data spec)"""
+    m = {"cls": base, "_d": d}
+    if kind == "SMART":
+        return Smart(base), {"cls": "SMART", "base": base, "_d": d}
+    if kind == "DeepARTMAP":
+        return Deep([base] * k, supervised=False), {"cls": "DeepARTMAP", "modules": [dict(m) for _ in range(k)]}
+    if kind == "FusionART":
+        return Fusion([base] * k), {"cls": "FusionART", "modules": [dict(m) for _ in range(k)]}
+    S = Falcon(td=(kind == "TD_FALCON"))
+    return S, {"cls": kind, "state_art": dict(m), "action_art": dict(m), "reward_art": {"cls": base, "_d": 1}}
+
+
+def shared_case_smart(r: random.Random) -> SharedCase:
+    """SMART(base_ART_class, rho_values, base_params, **kwargs): some of the layers' hyper-parameters travel as extra
+    keyword arguments; the same base_params dict and rho_values container then configure a second SMART / DeepARTMAP /
+    FusionART / FALCON, without the keyword (the class's default applies) or with another value for it"""
+    import artlib
+    sc = SharedCase()
+    base = r.choice(SHARED_BASES)
+    cls = getattr(artlib, base)
+    d, k = r.randint(1, 3), r.randint(2, 3)
+    pool = [0.0, 0.25, 0.5, 0.625, 0.75, 0.875] if base == "FuzzyART" else [0.25, 0.5, 0.625, 0.75, 0.875]
+    rhos = sorted(r.sample(pool, k))
+    e1, e2 = sub_elem(r, base, d), sub_elem(r, base, d)
+    for e in (e1, e2):
+        if base == "FuzzyART" and rhos[0] == 0.0 and e.get("alpha", 1) == 0.0:
+            e["alpha"] = 2.0 ** -10
+    full, alt = _elem_kwargs(e1), _elem_kwargs(e2)
+    scalars = [n for n in full if not isinstance(full[n], np.ndarray)]
+    kw_names = r.sample(scalars, r.randint(1, len(scalars)))
+    kw1 = {n: full[n] for n in kw_names}
+    defaults = _ctor_defaults(cls)
+    if all(n in defaults for n in kw_names) and r.random() < 0.6:
+        kw2, how2 = {}, "without the keyword(s): the class's default applies"
+    else:
+        kw2, how2 = {n: alt[n] for n in kw_names}, "with other values for the keyword(s)"
+    kinds = ["SMART", "SMART", "SMART", "DeepARTMAP", "FusionART"] + (["FALCON", "TD_FALCON"] if base == "FuzzyART" and k == 3 else [])
+    kind2 = r.choice(kinds)
+    sc.C = {"base_params": {n: v for n, v in full.items() if n not in kw_names}, "rho_values": _as_container(r, rhos)}
+    w = specs.width(base, d)
+    if kind2 == "FusionART":
+        sc.C["gamma_values"] = _as_container(r, r.choice(GAMMAS[k]))
+        sc.C["channel_dims"] = _as_container(r, [w] * k, as_int=True)
+    elif kind2 in ("FALCON", "TD_FALCON"):
+        sc.C["gamma_values"] = _as_container(r, r.choice(GAMMAS[3]))
+        sc.C["channel_dims"] = _as_container(r, [w, w, 2], as_int=True)
+
+    def layers(C, kw):
+        return [cls(rho=rho, **C["base_params"], **kw) for rho in C["rho_values"]]
+
+    def second(C, _mods=None):
+        from artlib import SMART, DeepARTMAP, FusionART, FALCON, TD_FALCON
+        if kind2 == "SMART":
+            return SMART(cls, C["rho_values"], C["base_params"], **kw2)
+        if kind2 == "DeepARTMAP":
+            return DeepARTMAP(layers(C, kw2))
+        if kind2 == "FusionART":
+            return FusionART(layers(C, kw2), C["gamma_values"], C["channel_dims"])
+        return (FALCON if kind2 == "FALCON" else TD_FALCON)(*layers(C, kw2), gamma_values=C["gamma_values"], channel_dims=C["channel_dims"])
+
+    def first(C):
+        from artlib import SMART
+        return SMART(cls, C["rho_values"], C["base_params"], **kw1)
+    sc.first, sc.second, sc.cls1, sc.cls2 = first, second, "SMART", kind2
+    sc.S1, sc.spec1 = _consumer("SMART", base, k, d)
+    sc.S2, sc.spec2 = _consumer(kind2, base, k, d)
+
+    def told(kw):
+        return [dict({n: v for n, v in defaults.items() if n in full}, **sc.C["base_params"], rho=rho, **kw) for rho in rhos]
+    sc.expect_first = told(kw1)
+    sc.expect_second = told(kw2) if kind2 == "SMART" else None
+    sc.info = {"family": "SMART(base_ART_class, rho_values, base_params, **kwargs)", "base_ART_class": base, "rho_values": rhos,
+               "first": {"class": "SMART", "kwargs": kw1}, "second": {"class": kind2, "kwargs": kw2, "how": how2}}
+    return sc
+
+
+def shared_case_channels(r: random.Random) -> SharedCase:
+    """FusionART / FALCON / TD_FALCON (gamma_values, channel_dims, the FusionART / DeepARTMAP modules list): the first
+    instance is built from the caller's containers (FALCON: also through the default gamma_values of the signature),
+    the second — same or another of these classes — from the same gamma_values / channel_dims objects and from deep
+    copies of the caller's module objects taken right after the first construction (before any training)"""
+    import artlib
+    sc = SharedCase()
+    kind1 = r.choice(["FusionART", "FusionART", "FALCON", "TD_FALCON", "DeepARTMAP"])
+    if kind1 == "DeepARTMAP":
+        kind2 = "DeepARTMAP"
+    else:
+        kind2 = r.choice(["FusionART", "FALCON", "TD_FALCON"])
+    falcon = "FALCON" in kind1 or "FALCON" in kind2
+    if falcon:
+        chans, ds = ["FuzzyART"] * 3, [r.randint(1, 2), 1, 1]
+    else:
+        k = r.randint(2, 3)
+        chans = [r.choice(["FuzzyART", "FuzzyART", "HypersphereART", "ART2A", "GaussianART"]) for _ in range(k)]
+        ds = [r.randint(1, 2) for _ in range(k)]
+    k = len(chans)
+    mspecs = [sub_elem(r, c, d_) for c, d_ in zip(chans, ds)]
+    dims = [specs.width(c, d_) for c, d_ in zip(chans, ds)]
+    default_gamma = falcon and kind1 != "FusionART" and kind2 != "FusionART" and r.random() < 0.4
+    sc.C = {"modules": [make(strip(m)) for m in mspecs]}
+    if kind1 != "DeepARTMAP":
+        sc.C["channel_dims"] = _as_container(r, dims, as_int=True)
+        if default_gamma:
+            # the container every FALCON shares: the default of the signature
+            sc.C["gamma_values (default argument of FALCON.__init__)"] = _ctor_defaults(artlib.FALCON)["gamma_values"]
+            sc.C["gamma_values (default argument of TD_FALCON.__init__)"] = _ctor_defaults(artlib.TD_FALCON)["gamma_values"]
+        else:
+            sc.C["gamma_values"] = _as_container(r, r.choice(GAMMAS[k]))
+
+    def build(kind, C, mods, as_list):
+        from artlib import DeepARTMAP, FusionART, FALCON, TD_FALCON
+        if kind == "DeepARTMAP":
+            return DeepARTMAP(mods if as_list else list(mods))
+        if kind == "FusionART":
+            return FusionART(mods if as_list else list(mods), C["gamma_values"], C["channel_dims"])
+        kw = {"channel_dims": C["channel_dims"]}
+        if "gamma_values" in C:
+            kw["gamma_values"] = C["gamma_values"]
+        if kind == "TD_FALCON" and r_td is not None:
+            kw.update(r_td)
+        return (FALCON if kind == "FALCON" else TD_FALCON)(*mods, **kw)
+    r_td = {"td_alpha": r.choice([1.0, 0.5]), "td_lambda": r.choice([1.0, 0.5, 0.0])} if r.random() < 0.5 else None
+    sc.first = lambda C: build(kind1, C, C["modules"], True)                                    # noqa
+    sc.second = lambda C, mods: build(kind2, C, mods, False)                                   # noqa
+    sc.cls1, sc.cls2 = kind1, kind2
+
+    def subj(kind):
+        if kind == "DeepARTMAP":
+            return Deep(chans, supervised=False), {"cls": kind, "modules": mspecs}
+        if kind == "FusionART":
+            return Fusion(chans), {"cls": kind, "modules": mspecs}
+        return Falcon(td=(kind == "TD_FALCON")), {"cls": kind, "state_art": mspecs[0], "action_art": mspecs[1], "reward_art": mspecs[2]}
+    (sc.S1, sc.spec1), (sc.S2, sc.spec2) = subj(kind1), subj(kind2)
+    sc.info = {"family": "gamma_values / channel_dims / modules list", "modules": mspecs, "first": {"class": kind1}, "second": {"class": kind2},
+               "default_gamma_values": default_gamma, "td": r_td}
+    return sc
+
+
+def _told_mismatch(est, expect) -> Optional[str]:
+    """SMART: layer i must report exactly the hyper-parameters its constructor call named (base_params + kwargs + rho_i,
+    the class's defaults for what was not named)"""
+    with quiet():
+        gp = est.get_params(deep=True)
+    for i, want in enumerate(expect):
+        got = {n[len(f"module_{i}__"):]: v for n, v in gp.items() if n.startswith(f"module_{i}__")}
+        if set(got) != set(want):
+            return f"layer {i} reports the names {sorted(got)}, constructed with {sorted(want)}"
+        for n, v in want.items():
+            if not peq(_norm(got[n]), _norm(v)) and not (isinstance(v, (float, np.floating)) and isinstance(got[n], (float, np.floating)) and float(v) == float(got[n])):
+                return f"get_params()['module_{i}__{n}'] = {got[n]!r}, constructed with {n}={v!r}"
+    return None
+
+
+def _leafs(est):
+    """hyper-parameters by value: get_params leaves where the class has them, the parameter tree otherwise"""
+    return ptree(est)
+
+
+def chk_o_shared_containers(ctx):
+    """(o) constructors reached through their optional paths with argument CONTAINERS the caller keeps and reuses.
+    The caller's dicts / lists / arrays (and module objects) are by value what they were — after each construction,
+    after training, at the end; the second instance, built from the same containers, is constructed / rejected like a
+    control built from fresh equal containers, reports the same hyper-parameters (SMART: exactly what its constructor
+    call named) and trains identically to the control while the first instance goes on training in between; and the
+    first instance equals ITS control (fresh containers, trained alone), i.e. neither instance influences the other."""
+    N = ctx.scale(40, 400)
+    for i in range(N):
+        r = gen.rng_for(ctx.seed, "C19/shared-containers", i)
+        sc = shared_case_smart(r) if i % 2 == 0 else shared_case_channels(r)
+        C = sc.C
+        P = copy.deepcopy(C)                                   # what the caller handed over, by value
+        rep = dict(sc.info, containers=P, index=i, seed=ctx.seed)
+        base_pic = [picture(C)]
+
+        def unchanged(after: str, cls: str, entry: str) -> bool:
+            d = pic_diff(base_pic[0], picture(C))
+            # module objects inside a caller's list are trained by design; only identity / length of the list counts then
+            if trained[0]:
+                d = [q for q in d if not q.startswith("/modules[") or q.endswith("/<object>")]
+            if d:
+                ctx.cov.hit("o:caller-container-changed")
+                now = {n: C[n] for n in {_top(q) for q in d} if n in C and n != "modules"}
+                ctx.issue("violation", f"{cls}.{entry}:caller-container-changed:{_top(d[0])}",
+                          f"{sc.info['family']}: {after}, the caller's argument container(s) changed at {d[:4]}"
+                          + (f" — now {now!r}, handed over as { {n: P[n] for n in now}!r}" if now else ""),
+                          dict(rep, after=after, now=copy.deepcopy(now)))
+                base_pic[0] = picture(C)          # later stages report what moves from here on
+                return False
+            return True
+        trained = [False]
+        ctx.cov.hit(f"o:first:{sc.cls1}")
+        ctx.cov.hit(f"o:second:{sc.cls2}")
+        for n, v in C.items():
+            ctx.cov.hit(f"o:container:{n.split(' ')[0]}:{type(v).__name__}")
+        # ---- the first instance, and its control from fresh equal containers
+        o1, o1c = outcome(lambda: sc.first(C)), outcome(lambda: sc.first(copy.deepcopy(P)))
+        unchanged(f"constructing the first instance ({sc.cls1})", sc.cls1, "__init__")
+        mods_now, mods_fresh = [copy.deepcopy(m) for m in C.get("modules", [])], copy.deepcopy(P.get("modules", []))
+        if o1[0] == "exc" or o1c[0] == "exc":
+            ctx.cov.hit("o:first-construction-rejected")
+            if o1[0] != o1c[0] or o1[1] != o1c[1]:
+                ctx.issue("violation", f"{sc.cls1}.__init__:caller-containers-unlike-fresh-equal-containers",
+                          f"{sc.info['family']}: first construction -> {o1[:2] if o1[0] == 'exc' else 'ok'}, from fresh equal containers -> "
+                          f"{o1c[:2] if o1c[0] == 'exc' else 'ok'}", rep)
+            continue
+        first, first_c = o1[1], o1c[1]
+        if sc.expect_first is not None:
+            bad = _told_mismatch(first, sc.expect_first)
+            if bad:
+                ctx.issue("violation", f"{sc.cls1}.get_params:not-what-it-was-constructed-with", f"first instance: {bad}", rep)
+        params_first = _leafs(first)
+        opsA1 = gen_ops(sc.S1, r, sc.spec1, r.randint(1, 2)) if r.random() < 0.5 else []
+        opsA2 = gen_ops(sc.S1, r, sc.spec1, r.randint(1, 2))
+        outsA = run_ops(sc.S1, first, opsA1)
+        if opsA1:
+            trained[0] = True
+            ctx.cov.hit("o:first-trained-before-the-second-is-built")
+            unchanged(f"training the first instance ({ops_brief(opsA1)})", sc.cls1, ENTRY[opsA1[-1][0]])
+        # ---- the second instance from the SAME containers, the control from fresh equal ones
+        o2, o2c = outcome(lambda: sc.second(C, mods_now)), outcome(lambda: sc.second(copy.deepcopy(P), mods_fresh))
+        unchanged(f"constructing the second instance ({sc.cls2})", sc.cls2, "__init__")
+        rep2 = dict(rep, ops_first_before=ops_replay(opsA1))
+        if o2[0] == "exc" or o2c[0] == "exc":
+            if o2[0] != o2c[0] or o2[1] != o2c[1]:
+                ctx.cov.hit("o:second-construction-unlike-control")
+                ctx.issue("violation", f"{sc.cls2}.__init__:built-from-shared-containers:unlike-control",
+                          f"{sc.info['family']}: the second instance ({sc.cls2}, {sc.info['second'].get('how', 'same containers')}) built from the containers "
+                          f"the first {sc.cls1} was built from -> {('raised ' + str(o2[1])) if o2[0] == 'exc' else 'ok'}; a control from fresh equal "
+                          f"containers -> {('raised ' + str(o2c[1])) if o2c[0] == 'exc' else 'ok'}", rep2)
+            else:
+                ctx.cov.hit("o:second-construction-rejected-like-control")
+            continue
+        second, control = o2[1], o2c[1]
+        bad = _told_mismatch(second, sc.expect_second) if sc.expect_second is not None else None
+        if bad is None and not eq_snap(_leafs(second), _leafs(control)):
+            bad = f"hyper-parameters differ from the control's at {snap_paths(_leafs(second), _leafs(control))[:4]}"
+        if bad:
+            ctx.cov.hit("o:second-reports-other-parameters")
+            ctx.issue("violation", f"{sc.cls2}.get_params:built-from-shared-containers:not-what-it-was-constructed-with",
+                      f"{sc.info['family']}: second instance ({sc.cls2}, {sc.info['second'].get('how', 'same containers')}): {bad}", rep2)
+        # ---- both go on: the first instance continues in between the second one's calls
+        ops2 = gen_ops(sc.S2, r, sc.spec2, r.randint(1, 3))
+        order = ["A"] * len(opsA2) + ["B"] * len(ops2)
+        r.shuffle(order)
+        ia = ib = 0
+        outs2 = []
+        for who in order:
+            if who == "A":
+                outsA.append(apply_op(sc.S1, first, opsA2[ia][0], opsA2[ia][1].copy()))
+                ia += 1
+            else:
+                outs2.append(apply_op(sc.S2, second, ops2[ib][0], ops2[ib][1].copy()))
+                ib += 1
+        trained[0] = True
+        outsC = run_ops(sc.S2, control, ops2)
+        rep3 = dict(rep2, ops_first_after=ops_replay(opsA2), ops_second=ops_replay(ops2), order=order)
+        d = first_diff(outs2, outsC)
+        if d is not None:
+            ctx.cov.hit("o:second-differs-from-control")
+            ctx.issue("violation", f"{sc.cls2}:built-from-shared-containers:trains-differently-from-control",
+                      f"{sc.info['family']}: the second instance ({sc.cls2}, {sc.info['second'].get('how', 'same containers')}) differs at its call {d} "
+                      f"({ops2[d][0]}; categories {_nc(outs2, d)} vs {_nc(outsC, d)}) from a control built from fresh equal containers", rep3)
+            continue
+        outsAc = run_ops(sc.S1, first_c, opsA1 + opsA2)
+        d = first_diff(outsA, outsAc)
+        if d is not None:
+            ctx.issue("violation", f"{sc.cls1}:instances-sharing-constructor-containers-influence-each-other",
+                      f"{sc.info['family']}: the first instance, trained while a {sc.cls2} built from the same containers was built and trained "
+                      f"({''.join(order)}), differs at its call {d} from the same instance built from fresh containers and trained alone", rep3)
+            continue
+        if not unchanged("training both instances", sc.cls2, ENTRY[ops2[-1][0]]):
+            continue
+        if not eq_snap(params_first, _leafs(first)):
+            ctx.issue("violation", f"{sc.cls1}.get_params:changed-by-another-instance",
+                      f"{sc.info['family']}: the first instance's hyper-parameters moved at {snap_paths(params_first, _leafs(first))[:4]} while the second "
+                      "instance was built and trained", rep3)
+            continue
+        ctx.cov.hit("o:independent")
+        ctx.cov.case(("o", sc.info, ops_brief(opsA1), ops_brief(opsA2), ops_brief(ops2), order), nontrivial(outs2) or nontrivial(outsA))
+
+
+# ================================================================ (p) a host constructed around an already fitted module
+
+
+HOST_SLOTS = [("DualVigilanceART", 0), ("TopoART", 0), ("CVIART", 0), ("SimpleARTMAP", 0), ("ARTMAP", 0), ("ARTMAP", 1),
+              ("FusionART", None), ("DeepARTMAP", None), ("BARTMAP", 0), ("BARTMAP", 1), ("FALCON", None), ("TD_FALCON", None)]
+
+
+def chk_p_host_around_fitted_module(ctx):
+    """(p) a fitted model owns its state, also against being WRAPPED: a module of every elementary class is trained,
+    then handed (in every slot) to the constructor of every host class — next to other modules, fresh or trained.  A
+    construction that raises is fine.  Every module handed over must afterwards be bit-identical in ALL its instance
+    attributes (weights, labels, counters, parameters, dim_, bounds), also after a read-only get_params of the host,
+    and must go on training (partial_fit of one more row) exactly like a deepcopy taken before the construction."""
+    import artlib
+    N = ctx.scale(len(HOST_SLOTS) * len(specs.ELEM), 10 * len(HOST_SLOTS) * len(specs.ELEM))
+    for i in range(N):
+        r = gen.rng_for(ctx.seed, "C19/host-around-fitted-module", i)
+        host, slot = HOST_SLOTS[i % len(HOST_SLOTS)]
+        cls = specs.ELEM[(i // len(HOST_SLOTS)) % len(specs.ELEM)]
+        nslots = {"ARTMAP": 2, "BARTMAP": 2, "FALCON": 3, "TD_FALCON": 3, "FusionART": r.randint(2, 3), "DeepARTMAP": r.randint(2, 3)}.get(host, 1)
+        slot = r.randrange(nslots) if slot is None else slot
+        mods, meta = [], []
+        for j in range(nslots):
+            c_ = cls if j == slot else r.choice(["FuzzyART", "FuzzyART", "HypersphereART", "ART2A", "GaussianART", "BayesianART"])
+            S = Elem(c_)
+            spec = S.spec(r)
+            m = make(strip(spec))
+            fitted = j == slot or r.random() < 0.4
+            ops = gen_ops(S, r, spec, r.randint(1, 2)) if fitted else []
+            outs = run_ops(S, m, ops)
+            mods.append(m)
+            meta.append({"slot": j, "cls": c_, "spec": spec, "ops": ops, "S": S, "fitted": fitted,
+                         "raised": any(o[0] == "exc" for o in outs), "ncat": len(getattr(m, "W", []))})
+        subject = mods[slot]
+        p = subject.params
+        if host == "DualVigilanceART":
+            args = [r.choice([p["rho"] / 2, p["rho"] / 4, 0.0])]
+        elif host == "TopoART":
+            tau = r.choice([2, 3, 5, 100])
+            args = [r.choice([p.get("beta", 1.0), p.get("beta", 1.0) / 2, 0.0]), tau, r.randint(1, min(3, tau))]
+        elif host == "CVIART":
+            args = [r.choice([1, 2, 3])]
+        elif host == "BARTMAP":
+            args = [r.choice([-1.0, 0.0, 0.25, 0.5])]
+        else:
+            args = []
+        widths = [specs.width(t["cls"], t["spec"]["_d"]) for t in meta]
+        gammas = list(r.choice(GAMMAS[nslots])) if nslots in GAMMAS else None
+        before = [picture(m) for m in mods]
+        twins = [copy.deepcopy(m) for m in mods]
+
+        def construct():
+            H = getattr(artlib, host)
+            if host in ("FusionART",):
+                return H(mods, gammas, widths)
+            if host == "DeepARTMAP":
+                return H(mods)
+            if host in ("FALCON", "TD_FALCON"):
+                return H(*mods, gamma_values=gammas, channel_dims=widths)
+            return H(*mods, *args)
+        o = outcome(construct)
+        ctx.cov.hit(f"p:{host}[{slot}]({cls}):" + ("constructed" if o[0] == "ok" else "construction-raised"))
+        rep = {"host": host, "host_args": args, "gamma_values": gammas, "channel_dims": widths, "slot_of_the_subject": slot, "index": i, "seed": ctx.seed,
+               "modules": [{"cls": t["cls"], "spec": t["spec"], "trained_by": ops_replay(t["ops"]), "categories": t["ncat"]} for t in meta]}
+        looked = False
+        ok = True
+        for stage in ("construction", "get_params"):
+            if stage == "get_params":
+                if o[0] != "ok" or not hasattr(o[1], "get_params"):
+                    break
+                outcome(lambda: o[1].get_params(deep=True))
+                looked = True
+                ctx.cov.hit("p:get_params-of-the-host-read")
+            for m, t, pic in zip(mods, meta, before):
+                d = pic_diff(pic, picture(m))
+                if d:
+                    ok = False
+                    ctx.cov.hit("p:module-changed")
+                    state = "fitted" if t["fitted"] else "unfitted"
+                    ctx.issue("violation", f"{host}({t['cls']}):{stage}-changed-{state}-module:{_top(d[0])}",
+                              f"{'constructing' if stage == 'construction' else 'get_params of'} {host}"
+                              f"{' (the constructor raised ' + str(o[1]) + ')' if o[0] == 'exc' else ''} around a {state} {t['cls']} "
+                              f"({t['ncat']} categories, slot {t['slot']}) changed the module's own state at {d[:4]}",
+                              dict(rep, changed_module_slot=t["slot"]))
+            if not ok:
+                break
+        if not ok:
+            continue
+        # ---- the module goes on like the deepcopy taken before it was wrapped
+        t = meta[slot]
+        D = t["S"].data(r, t["spec"], 2).cut(0, 1)
+        a, b = apply_op(t["S"], subject, "pfit", D.copy()), apply_op(t["S"], twins[slot], "pfit", D.copy())
+        if not eq_snap(a, b) or pic_diff(picture(subject, ids=False), picture(twins[slot], ids=False)):
+            ctx.issue("violation", f"{host}({cls}):construction-changed-fitted-module:continues-differently",
+                      f"after {host} was constructed around it{' and its get_params read' if looked else ''}, partial_fit of one more row on the {cls} "
+                      f"-> {a[:2] if a[0] == 'exc' else 'ok'}; on a deepcopy taken before the construction -> {b[:2] if b[0] == 'exc' else 'ok'}"
+                      f"; state differs at {pic_diff(picture(subject, ids=False), picture(twins[slot], ids=False))[:4]}", dict(rep, one_more_row=D.X))
+            continue
+        ctx.cov.hit("p:module-unchanged")
+        ctx.cov.case(("p", host, slot, [(t_["cls"], t_["spec"], ops_brief(t_["ops"])) for t_ in meta], args),
+                     t["ncat"] >= 2 or len(getattr(subject, "W", [])) >= 2)
+
+
 def prepare(ctx):
     """Translator tie (see gen_tie.py): validate_params of the eight elementary classes and BaseART's __init__ /
     __getattr__ / __setattr__ / get_params / set_params are re-translated to Lean on every run (harness/artv/qtrans.py)
     and proved equal to the parameter-protocol model the C19 theorems are about"""
     from .gen_tie import gen_prepare, extra_theorems
-    from .. import qtrans, q2trans
-    gen_prepare(ctx, extra_theorems("qtrans") + extra_theorems("q2trans"), qtrans.COVERS + "; " + q2trans.COVERS)
+    from .. import qtrans, q2trans, q3trans
+    gen_prepare(ctx, extra_theorems("qtrans") + extra_theorems("q2trans") + extra_theorems("q3trans"),
+                qtrans.COVERS + "; " + q2trans.COVERS + "; " + q3trans.COVERS)
 
 def run(ctx):
     ctx.trusted += ["Python object graphs (deepcopy, pickle, sklearn.clone, `fit(...) is est`, instance independence, "
@@ -2200,6 +2689,8 @@ def run(ctx):
                 except Exception as e:  # the machinery must not hide a crash as a pass
                     raise RuntimeError(f"C19 sub-check {tag} crashed on {S.name} index {idx}: {e!r}") from e
     chk_replace_and_nested(ctx)
+    chk_o_shared_containers(ctx)
+    chk_p_host_around_fitted_module(ctx)
     exercise_defaults(ctx)
     chk_shared_defaults(ctx, shared)
     ctx.cov.sample({"subjects": [S.name for S in subjects], "rounds_per_subject": rounds,
